@@ -44,10 +44,11 @@ def main():
         sh("git checkout -- .", wt)
     # 1. demo on unchanged source
     shutil.copy(os.path.join(src, "demo.rs"), os.path.join(wt, demo_rel))
-    rc, out = sh("cargo nextest run -p apache-avro --offline --test %s --no-fail-fast 2>&1 | tail -40" % demo_name, wt)
+    pkg = "apache-avro-derive" if demo_rel.startswith("avro_derive/") else "apache-avro"
+    rc, out = sh("cargo nextest run -p %s --offline --test %s --no-fail-fast 2>&1 | tail -40" % (pkg, demo_name), wt)
     s1 = summary_line(out)
     ok_unchanged = " passed" in s1 and "failed" not in s1
-    meta["steps"].append({"cmd": "unchanged source: cargo nextest run -p apache-avro --offline --test %s" % demo_name, "outcome": s1})
+    meta["steps"].append({"cmd": "unchanged source: cargo nextest run -p %s --offline --test %s" % (pkg, demo_name), "outcome": s1})
     # 2. apply, whole suite + demo
     rc, out = sh("git apply %s" % patch, wt)
     if rc != 0:
